@@ -1,6 +1,7 @@
 package main
 
 import (
+	"crypto/rsa"
 	"math/big"
 	"strconv"
 
@@ -16,6 +17,39 @@ func init() {
 		e, _ := strconv.Atoi(a[1])
 		sl, _ := strconv.Atoi(a[3])
 		if pssref.Verify(new(big.Int).SetBytes(uh(a[0])), e, h, sl, uh(a[4]), uh(a[5])) {
+			return "01"
+		}
+		return "00"
+	}
+	// The "core" of the RSA verifications for the model's std_pkcs1 / std_pss:
+	// the signature is read as the INTEGER it denotes (leading zero bytes
+	// stripped or added up to the modulus length), so that the fixed-length
+	// rule is decided by the model alone (Sig.std_pkcs1 / std_pss), not here.
+	normalize := func(n *big.Int, sig []byte) []byte {
+		k := (n.BitLen() + 7) / 8
+		s := new(big.Int).SetBytes(sig)
+		if s.BitLen() > 8*k {
+			return nil
+		}
+		return s.FillBytes(make([]byte, k))
+	}
+	ops["rsa_pkcs1_core"] = func(a []string) string { // n e hash digest sig
+		_, ch := hashByName(a[2])
+		e, _ := strconv.Atoi(a[1])
+		n := new(big.Int).SetBytes(uh(a[0]))
+		sig := normalize(n, uh(a[4]))
+		if sig != nil && rsa.VerifyPKCS1v15(&rsa.PublicKey{N: n, E: e}, ch, uh(a[3]), sig) == nil {
+			return "01"
+		}
+		return "00"
+	}
+	ops["rsa_pss_core_strict"] = func(a []string) string { // n e hash saltlen digest sig
+		h, _ := hashByName(a[2])
+		e, _ := strconv.Atoi(a[1])
+		sl, _ := strconv.Atoi(a[3])
+		n := new(big.Int).SetBytes(uh(a[0]))
+		sig := normalize(n, uh(a[5]))
+		if sig != nil && pssref.Verify(n, e, h, sl, uh(a[4]), sig) {
 			return "01"
 		}
 		return "00"
